@@ -1,13 +1,17 @@
 #!/bin/bash
-# tools/mutant.sh <patch.diff> <ID> [tier]: apply a seeded change to /repo, run the check, undo.
+# tools/mutant.sh <patch.diff> <ID> [tier]: apply a seeded change to a scratch worktree of /repo HEAD
+# (never to /repo itself), run the check against that worktree, remove it.
 set -u
 patch=$1; id=$2; tier=${3:-quick}
-cd /repo || exit 2
-git diff --quiet || { echo "repo dirty"; exit 2; }
-git apply "$patch" 2>/dev/null || git apply --3way "$patch" || { echo "PATCH-DOES-NOT-APPLY $patch"; git checkout HEAD -- . ; exit 3; }
+W=$(mktemp -d /tmp/wt-mut.XXXXXX)
+rmdir "$W"
+git -C /repo worktree add -q --detach "$W" HEAD || { echo "cannot create worktree"; exit 2; }
+trap 'git -C /repo worktree remove --force "$W" 2>/dev/null; git -C /repo worktree prune' EXIT
+# uncommitted changes of /repo's working tree (if any) are part of what is checked
+if ! git -C /repo diff --quiet; then git -C /repo diff | git -C "$W" apply; fi
+git -C "$W" apply "$patch" 2>/dev/null || (cd "$W" && patch -p1 --fuzz=2 -s < "$patch" && find . -name '*.orig' -delete) || { echo "PATCH-DOES-NOT-APPLY $patch"; exit 3; }
 cd /verif
-VERIF_EVIDENCE=/tmp/mutant-evidence-$id.json ./check.sh "$id" "$tier" 2>&1 | grep -v "^COUNTERS" | grep -E "^(VIOLATION|SUMMARY|INCONCLUSIVE|  sig=)" | head -${LINES_MAX:-8}
+VERIF_REPO="$W" VERIF_EVIDENCE=/tmp/mutant-evidence-$id-$$.json ./check.sh "$id" "$tier" 2>&1 | grep -v "^COUNTERS" | grep -E "^(VIOLATION|SUMMARY|INCONCLUSIVE|  sig=)" | head -${LINES_MAX:-8}
 rc=${PIPESTATUS[0]}
-cd /repo && git checkout HEAD -- . && git clean -fdq internal cmd 2>/dev/null
-git status --short | head -3
+rm -f /tmp/mutant-evidence-$id-$$.json
 exit $rc
